@@ -33,6 +33,7 @@ import (
 	"github.com/tochemey/goakt/v4/internal/codec"
 	"github.com/tochemey/goakt/v4/internal/internalpb"
 	"github.com/tochemey/goakt/v4/internal/types"
+	"github.com/tochemey/goakt/v4/internal/verifhook"
 	"github.com/tochemey/goakt/v4/internal/xsync"
 	"github.com/tochemey/goakt/v4/reentrancy"
 )
@@ -377,6 +378,7 @@ func (s *requestState) startTimeout(timeout time.Duration) {
 		defer timers.Put(timer)
 		select {
 		case <-timer.C:
+			verifhook.At("req.timeout.fire", s, 0, 0)
 			_ = s.requester.enqueueAsyncError(context.Background(), s.id, gerrors.ErrRequestTimeout)
 		case <-stopCh:
 			return
